@@ -43,8 +43,7 @@ ASSUMPTIONS = [
     'iteration order of sets is arbitrary; the cap keeps an arbitrary subset of max_results matching items',
 ]
 TRUSTED_BASE = ['pyvc engine', 'z3 (quantifier instantiation over sets-as-arrays), cvc5 as second back end', 'the regex lemma']
-NOT_DECIDED = ['files changing on disk during a scan; scan_directory itself (os.walk in an executor) is an external function with the contract '
-               '"returns the files on disk under the directory that are not under a child shared directory"',
+NOT_DECIDED = ['files changing on disk during a scan; os.walk / getmtime are external (scan_directory is under contract for one arbitrary walked directory)',
                'attribute extraction']
 
 
@@ -1823,8 +1822,139 @@ def prove_dirs(src_root, ex: Explorer):
     ex.run(partition_remove, 'partition-remove')
 
 
+# ---------------------------------------------------------------------------
+# scan_directory: the walk over the file system
+
+SCAND = f'{MGR}:scan_directory'
+
+
+def prove_scan_directory(src_root, ex: Explorer):
+    def walk(ctx: Ctx):
+        """scan_directory(d, children), one ARBITRARY directory of the walk: it is skipped iff some child shared directory is an
+        ancestor-or-self of its normalised absolute path; otherwise every file whose modification time can be read becomes an item owned
+        by d with subdir = relpath(directory, d) ('' for d itself), and nothing else is added"""
+        it = mk(src_root, ctx)
+        install_paths(it, ctx)
+        ABSN = z3.Function('normalised_absolute', S, S)
+        REL = z3.Function('relpath', S, S, S)
+        MTIME = z3.Function('mtime', S, z3.RealSort())
+        it.natives['os.path.abspath'] = Native('abspath', lambda it2, a, k: ('abspath', a[0]))
+        it.natives['os.path.normpath'] = Native('normpath', lambda it2, a, k: Sym(ABSN(z3str(unbox(a[0][1]))), 'str') if isinstance(a[0], tuple) and a[0][0] == 'abspath'
+                                                else (_ for _ in ()).throw(Unsupported('normpath of something else')))
+        it.natives['os.path.relpath'] = Native('relpath', lambda it2, a, k: Sym(REL(z3str(unbox(a[0])), z3str(unbox(a[1]))), 'str'))
+        fails = ctx.choose(2, 'getmtime-fails') == 1
+
+        def getmtime(it2, a, k):
+            if fails:
+                it2.throw('OSError', 'gone')
+            return Sym(MTIME(z3str(unbox(a[0]))), 'real')
+        it.natives['os.path.getmtime'] = Native('getmtime', getmtime)
+        it.natives['os.path.join'] = Native('join', lambda it2, a, k: Sym(z3.Concat(z3str(unbox(a[0])), z3.StringVal('/'), z3str(unbox(a[1]))), 'str'))
+        dabs = ctx.fresh_str('shared_abs')
+        d = new(it, SMODEL_SHARES, 'SharedDirectory', absolute_path=Sym(dabs, 'str'), directory='d', alias='ddddd')
+        cabs = ctx.fresh_str('child_abs')
+        child = new(it, SMODEL_SHARES, 'SharedDirectory', absolute_path=Sym(cabs, 'str'), directory='c', alias='ccccc')
+
+        class Children:
+            def pyvc_truth(self, it2):
+                return True
+
+            def pyvc_iter(self, it2, loop):
+                raise Unsupported('iteration over the child directories without a contract')
+        children = Children()
+        UNDER = z3.Function('under_a_child_shared_directory', S, B)
+        directory, filename = ctx.fresh_str('directory'), ctx.fresh_str('filename')
+
+        class Walk:
+            def pyvc_iter(self, it2, loop):
+                raise Unsupported('os.walk without a contract')
+        walked = []
+        it.natives['os.walk'] = Native('os.walk', lambda it2, a, k: (walked.append(a[0]), Walk())[1])
+
+        class Files:
+            def pyvc_iter(self, it2, loop):
+                raise Unsupported('files without a contract')
+        files = Files()
+        added = []
+
+        class Acc:
+            def pyvc_getattr(self, it2, name):
+                if name == 'add':
+                    return Native('add', lambda it3, a, k: added.append(a[0]))
+                raise Unsupported(name)
+
+        def comp_any(it2, node, env):
+            src = it2.eval(node.generators[0].iter, env)
+            cenv = _child_env(env)
+            it2.assign(node.generators[0].target, child, cenv)
+            v = it2.truth(it2.eval(node.elt, cenv))
+            ctx.prove('C07.scan_directory.child-test', src is children and not node.generators[0].ifs and ctx.valid(v == ANC(cabs, ABSN(directory))),
+                      'a walked directory must be tested against every child shared directory by ANCESTRY of its normalised absolute path', use_lemmas=False)
+            return SkipTest()
+
+        class SkipTest:
+            pass
+        orig_any = it.natives['builtins.any']
+        it.natives['builtins.any'] = Native('builtins.any', lambda it2, a, k: Sym(UNDER(ABSN(directory)), 'bool') if isinstance(a[0], SkipTest) else orig_any.fn(it2, a, k))
+        it.comp_specs[(SCAND, 0)] = comp_any
+        state = {}
+
+        def outer(it2, node, env):
+            it2.eval(node.iter, env)
+            acc = [k for k, v in env.vars.items() if isinstance(v, set) and not v]
+            ctx.prove('C07.scan_directory.walks-directory', len(walked) == 1 and ctx.valid(z3str(unbox(walked[0])) == dabs) and len(acc) == 1, use_lemmas=False)
+            if len(acc) != 1:
+                raise PathAbort()
+            env.vars[acc[0]] = Acc()
+            state['acc'] = env.vars[acc[0]]
+            it2.assign(node.target, (Sym(directory, 'str'), Stub('subdirs'), files), env)
+            try:
+                it2.exec_block(node.body, env)
+            except ContinueEx:
+                state['skipped'] = True
+
+        def inner(it2, node, env):
+            if it2.eval(node.iter, env) is not files:
+                raise Unsupported('inner loop: iteration space')
+            it2.assign(node.target, Sym(filename, 'str'), env)
+            try:
+                it2.exec_block(node.body, env)
+            except ContinueEx:
+                pass
+            state['inner'] = True
+        it.loop_specs[(SCAND, 0)] = outer
+        it.loop_specs[(SCAND, 1)] = inner
+        r = it.call(func(it, MGR, 'scan_directory'), [d], {'children': children})
+        ctx.prove('C07.scan_directory.returns-items', r is state.get('acc'), use_lemmas=False)
+        under = UNDER(ABSN(directory))
+        if state.get('skipped'):
+            ctx.prove('C07.scan_directory.skips-only-children', ctx.valid(under) and not added,
+                      'only directories under a child shared directory may be skipped', use_lemmas=False)
+            return
+        ctx.prove('C07.scan_directory.children-excluded', ctx.valid(z3.Not(under)),
+                  'the files of a directory that lies under a child shared directory are indexed for the parent as well', use_lemmas=False)
+        if fails:
+            ctx.prove('C07.scan_directory.unreadable-skipped', state.get('inner') and not added, use_lemmas=False)
+            return
+        ok = state.get('inner') and len(added) == 1 and isinstance(added[0], Obj) and added[0].cls.name == 'SharedItem'
+        if ok:
+            n = added[0]
+            rel = REL(directory, dabs)
+            ok = (n.attrs['shared_directory'] is d and ctx.valid(z3str(unbox(n.attrs['filename'])) == filename)
+                  and ctx.valid(z3str(unbox(n.attrs['subdir'])) == z3.If(rel == z3.StringVal('.'), z3.StringVal(''), rel))
+                  and ctx.valid(unbox_real(n.attrs['modified']) == MTIME(z3.Concat(directory, z3.StringVal('/'), filename))))
+        ctx.prove('C07.scan_directory.item', ok, 'each readable file must become one item owned by the scanned directory with its relative sub-directory, '
+                  'name and modification time', use_lemmas=False)
+    ex.run(walk, 'scan-directory')
+
+
+def unbox_real(v):
+    from pyvc.values import z3real
+    return z3real(unbox(v))
+
+
 def items(src_root, tier):
-    return [('query', None), ('termmap', None), ('scan', None), ('parse', None), ('dirs', None), ('lemma', None)]
+    return [('query', None), ('termmap', None), ('scan', None), ('parse', None), ('dirs', None), ('scan-directory', None), ('lemma', None)]
 
 
 def run_item(src_root, item, tier):
@@ -1835,7 +1965,7 @@ def run_item(src_root, item, tier):
         if kind == 'lemma':
             prove_lemma_bounded(src_root, ex, tier)
         else:
-            {'query': prove_query, 'termmap': prove_termmap, 'scan': prove_scan, 'parse': prove_parse, 'dirs': prove_dirs}[kind](src_root, ex)
+            {'query': prove_query, 'termmap': prove_termmap, 'scan': prove_scan, 'parse': prove_parse, 'dirs': prove_dirs, 'scan-directory': prove_scan_directory}[kind](src_root, ex)
     except Unsupported as e:
         res.errors.append(f'{kind}: unsupported: {e}')
     collect(res, ex)
